@@ -445,6 +445,8 @@ def run(chk):
         chk.leanchecker(['PeptVerif.Props.C15', 'PeptVerif.Props.C15Glycan', 'PeptVerif.Lemmas.NumSpec', 'PeptVerif.Lemmas.NumText',
                          'PeptVerif.Lemmas.FormulaRT', 'PeptVerif.Lemmas.GlycanRT', 'PeptVerif.Model.Formula'])
         lap('leanchecker')
+    if chk.generated_changed:
+        TV.restore_after_scratch_run()
     return chk.finish(classify)
 
 
